@@ -19,6 +19,7 @@ import (
 	"context"
 	"fmt"
 	"net"
+	"os"
 	"strings"
 	"sync"
 	"sync/atomic"
@@ -37,11 +38,21 @@ import (
 	"verif/harness/hx"
 )
 
+// tcpConnectTimeout: the clusters' connect_timeout (experiment switch C10T9_CONNECT_US: a value so small that dials to
+// live hosts time out in MOSN after the kernel completed the handshake — exercises the stale-accept detection).
+var tcpConnectTimeout = func() time.Duration {
+	if v := os.Getenv("C10T9_CONNECT_US"); v != "" {
+		var us int
+		fmt.Sscan(v, &us)
+		return time.Duration(us) * time.Microsecond
+	}
+	return 120 * time.Millisecond
+}()
+
 const (
-	tcpConnectTimeout = 120 * time.Millisecond
-	tcpReadTimeout    = 100 * time.Millisecond // types.DefaultConnReadTimeout while the kind runs
-	tcpIdleShort      = 450 * time.Millisecond // listener idle timeout of the idle scripts
-	tcpStepWait       = 4 * time.Second
+	tcpReadTimeout = 100 * time.Millisecond // types.DefaultConnReadTimeout while the kind runs
+	tcpIdleShort   = 450 * time.Millisecond // listener idle timeout of the idle scripts
+	tcpStepWait    = 4 * time.Second
 )
 
 type tcpCMF struct{}
@@ -181,6 +192,8 @@ type tcpProxySide struct {
 	noneAddr *net.TCPAddr // listener whose filter names a cluster that does not exist
 }
 
+var tcpPoisoned bool // c10t9: a script ended with a downstream connection MOSN never closed; no further script is run
+
 var (
 	tcpSideOnce sync.Once
 	tcpSide     *tcpProxySide
@@ -274,16 +287,19 @@ type tcpSess struct {
 }
 
 type tcpWorld struct {
-	side     *tcpProxySide
-	name     string
-	hosts    []*tcpHost
-	accepted chan *tcpUpConn
-	sess     []*tcpSess
-	amb      int
-	max      int
-	info     types.ClusterInfo
-	slow     bool   // an observation did not reach the reference values in time: use short waits from now on
-	skew     string // c10t9: why this run of the script is unusable (environment, not MOSN); "" = usable
+	side      *tcpProxySide
+	name      string
+	hosts     []*tcpHost
+	accepted  chan *tcpUpConn
+	sess      []*tcpSess
+	amb       int
+	max       int
+	info      types.ClusterInfo
+	slow      bool          // an observation did not reach the reference values in time: use short waits from now on
+	script    string        // c10t9: the case tokens (for diagnostics)
+	acceptDur time.Duration // c10t9: how long the last accept step took until the sockets showed its outcome
+	leaked    []*tcpUpConn  // c10t9: upstream connections beyond a session's own that MOSN keeps open (closed at the end)
+	skew      string        // c10t9: why this run of the script is unusable (environment, not MOSN); "" = usable
 }
 
 type tcpObs struct {
@@ -438,6 +454,8 @@ func (w *tcpWorld) step(st string, r *hx.Rng) (string, bool) {
 	op, arg := st[0], st[1:]
 	switch op {
 	case 'A', 'N': // a new downstream connection (N: through the listener whose cluster does not exist)
+		t0 := time.Now()
+		defer func() { w.acceptDur = time.Since(t0) }()
 		s := w.dial(op == 'N')
 		w.sess = append(w.sess, s)
 		if w.skew != "" {
@@ -627,7 +645,7 @@ func (w *tcpWorld) step(st string, r *hx.Rng) (string, bool) {
 // runTcpScript runs one script; ok=false when the environment (not MOSN) made it unusable (why: the counted reason).
 func runTcpScript(c *hx.Ctx, sc tcpScript, r *hx.Rng) (out string, ok bool, why string) {
 	side := tcpGetSide()
-	w := &tcpWorld{side: side, name: fmt.Sprintf("c10tcp-%d", atomic.AddInt64(&tcpSeq, 1)), accepted: make(chan *tcpUpConn, 64), max: sc.max}
+	w := &tcpWorld{side: side, name: fmt.Sprintf("c10tcp-%d", atomic.AddInt64(&tcpSeq, 1)), accepted: make(chan *tcpUpConn, 64), max: sc.max, script: sc.caseToks()}
 	defer func() {
 		if !ok && why == "" {
 			why = w.skew
@@ -643,7 +661,19 @@ func runTcpScript(c *hx.Ctx, sc tcpScript, r *hx.Rng) (out string, ok bool, why 
 		// c10t9: MOSN closes its side of these connections on goroutines of its own: the script is over when the handler
 		// has forgotten them all (the next script, or the re-run of this one, must start on an idle proxy)
 		if !w.waitNoConnections("end-of-script") {
-			panic(fmt.Sprintf("c10 tcp: %d downstream connections still open after every client was closed (script %s)", side.handler.NumConnections(), sc.caseToks()))
+			// MOSN keeps a downstream connection whose client is gone (everything parked): a leak. When the script's own line
+			// shows a hang (`h`, a violation with this script as the failing input) the line is the report and the kind stops
+			// here (later scripts would start on a proxy that is not idle); otherwise it panics as it always did
+			msg := fmt.Sprintf("c10 tcp: %d downstream connections still open after every client was closed (script %s)", side.handler.NumConnections(), sc.caseToks())
+			if ok && (strings.HasPrefix(out, "h:") || strings.Contains(out, ";h:")) {
+				hx.Logf("%s: the kind stops after this script", msg)
+				tcpPoisoned = true
+			} else {
+				panic(msg)
+			}
+		}
+		for _, u := range w.leaked {
+			u.c.Close()
 		}
 		for _, h := range w.hosts {
 			h.shutdown()
@@ -696,6 +726,7 @@ func runTcpScript(c *hx.Ctx, sc tcpScript, r *hx.Rng) (out string, ok bool, why 
 		panic(fmt.Sprintf("c10 tcp: %d downstream connections left over from the previous script", side.handler.NumConnections()))
 	}
 	var toks []string
+	var prev tcpObs
 	batchStart := time.Time{}
 	for _, st := range sc.steps {
 		if sc.idle {
@@ -719,13 +750,30 @@ func runTcpScript(c *hx.Ctx, sc tcpScript, r *hx.Rng) (out string, ok bool, why 
 		}
 		o := w.settle()
 		if st[0] == 'A' || st[0] == 'N' {
+			s := w.sess[len(w.sess)-1]
+			failedTries, connected := o.rt > prev.rt, o.cT > prev.cT
+			// c10t9: the step took an upstream connection for the session's which is at EOF now, the client is at EOF, and
+			// MOSN's own counters say "tries failed, none connected": the accepted connection was a dial MOSN had given up
+			// (connect timeout although the kernel completed the handshake) — see staleAccepts. (A session MOSN connected
+			// — cT moved — and closed at once is NOT excused: it stays `e` and the counters tell.)
+			if tok == "e" && failedTries && !connected && tcpClosed(s.up.eof)() && tcpClosed(s.cliEOF)() {
+				return "", false, "dial-timeout-on-live-host"
+			}
+			// c10t9: in a cluster without black holes every failed try is a REFUSED dial (ConnectFailed, counted in cf); a
+			// dial whose goroutine is not scheduled for connect_timeout ends as ConnectTimeout instead (not counted in cf).
+			// When tries failed and the step took longer than the connect timeout the two cannot be told apart from outside
+			if failedTries && !strings.Contains(sc.hosts, "T") && w.acceptDur >= tcpConnectTimeout {
+				hx.Logf("c10 tcp: accept with failed tries took %v >= connect_timeout %v on a cluster without black holes: refused and timed-out dials cannot be told apart: script dropped", w.acceptDur, tcpConnectTimeout)
+				return "", false, "slow-dial"
+			}
 			// c10t9: connections our live hosts accepted beyond the session's own (see staleAccepts)
-			if n, closed := w.staleAccepts(); n > 0 && closed {
+			if n, skew := w.staleAccepts(w.sess[len(w.sess)-1]); n > 0 && skew {
 				hx.Logf("c10 tcp: %d upstream connection(s) accepted by a live host and given up by MOSN's dial (connect timeout %v under load): script dropped", n, tcpConnectTimeout)
 				return "", false, "dial-timeout-on-live-host"
 			}
 		}
 		toks = append(toks, tok+":"+o.String())
+		prev = o
 	}
 	return strings.Join(toks, ";"), true, ""
 }
@@ -920,6 +968,11 @@ func RunTcp(c *hx.Ctx, n int) {
 			continue
 		}
 		c.Emit("C10", sc.caseToks(), out)
+		if tcpPoisoned {
+			c.Count("tcp.stopped-after-leaked-connection")
+			c.FlushNow()
+			return
+		}
 		c.Count(fmt.Sprintf("tcp.max=%d", sc.max))
 		c.Count("tcp.hosts=" + tcpHostClass(sc.hosts))
 		for _, st := range sc.steps {
